@@ -37,7 +37,7 @@ func genC13(t *rapid.T) c13Case {
 	var bound int64 = -1 // relative to arrival
 	switch c.Stack.Kind {
 	case "queue", "fifo-dep", "lifo-dep":
-		c.Stack.TimeoutNs = rapid.SampledFrom(append([]int64{0}, durs...)).Draw(t, "timeout")
+		c.Stack.TimeoutNs = rapid.SampledFrom(durs).Draw(t, "timeout") // explicit values only: the default (0 => 1 s) is an implementation constant, not part of the property
 		if c.Stack.Kind == "queue" {
 			c.Stack.Ordering = rapid.SampledFrom([]string{"fifo", "lifo", ""}).Draw(t, "ordering")
 			c.Stack.Evict = rapid.Bool().Draw(t, "evict")
